@@ -6,6 +6,7 @@ Runs under python3-vt (CPython 3.11 + z3-solver wheel) with PYTHONPATH=/repo.
 """
 import builtins
 import hashlib
+import os
 import time
 import z3
 
@@ -72,15 +73,20 @@ class Engine:
             return self.is_bool(ch[1]) and self.is_bool(ch[2])
         return False
 
-    def add_axiom(self, a):
+    def add_axiom(self, a, to_solver=True):
         self.axioms.append(a)
+        if to_solver:
+            self.solver.add(a)
+
+    def add_lemma(self, a):
+        """a consequence of recorded axioms, given to the feasibility solver only (keeps it linear)"""
         self.solver.add(a)
 
     def _check(self, c):
         t0 = time.time()
         self.solver.push()
         self.solver.add(c)
-        r = self.solver.check()
+        r = guarded_check(self.solver, self.feas_timeout_ms)
         self.solver.pop()
         self.stats["feas_queries"] += 1
         self.stats["feas_time"] += time.time() - t0
@@ -198,6 +204,17 @@ class Engine:
             self.stats["paths"] += 1
             results.append(PathResult(self, out))
         return results
+
+
+def guarded_check(solver, timeout_ms):
+    """solver.check().  (A watchdog thread calling ctx.interrupt() was tried and removed: merely having a second Python
+    thread alive made z3 5.1 abort with internal assertion violations.  A solver call that ignores its timeout is
+    instead caught by the per-job wall limit of the worker pool, which kills the worker and reports the job as
+    inconclusive.)"""
+    try:
+        return solver.check()
+    except z3.Z3Exception:
+        return z3.unknown
 
 
 class PathResult:
@@ -737,7 +754,16 @@ def named_product(a, b):
     ENG.prod_defs[m.get_id()] = (m, a, b)
     ax = (m == a * b)
     ENG.prod_axiom_ids.add(ax.get_id())
-    ENG.add_axiom(ax)
+    # the exact (nonlinear) definition goes into the path facts; the feasibility solver only gets linear consequences
+    # (sign, zero, magnitude), which keeps branching decisions in linear arithmetic.  Unknown never prunes a path.
+    ENG.add_axiom(ax, to_solver=False)
+    ENG.add_lemma((m == 0) == z3.Or(a == 0, b == 0))
+    ENG.add_lemma(z3.Implies(z3.And(a > 0, b > 0), z3.And(m >= a, m >= b)))
+    ENG.add_lemma(z3.Implies(z3.And(a < 0, b < 0), z3.And(m >= -a, m >= -b)))
+    ENG.add_lemma(z3.Implies(z3.And(a > 0, b < 0), z3.And(m <= -a, m <= b)))
+    ENG.add_lemma(z3.Implies(z3.And(a < 0, b > 0), z3.And(m <= a, m <= -b)))
+    if a.get_id() == b.get_id():
+        ENG.add_lemma(m >= 0)
     return m
 
 
